@@ -134,7 +134,11 @@ def run(ctx):
         ("sim", dict(cfg_text=cfg(spec="GenSpec", ms=6, st=2), json_sink=sink2, simulate=ctx.pick(400, 4000), depth=80, seed=ctx.seed, timeout=600)),
         ("mc_deviation", dict(cfg_text=cfg(ms=1, gid="TRUE"), workers=2, timeout=300)),
     ]
+    sink8 = os.path.join(ctx.tmp, "c18.dyn2")
     if ctx.thorough:
+        # proxy.CloseProxy is an exported function: also on a listener main itself never closes at run time
+        jobs.append(("gen_dyn_api", dict(cfg_text=cfg(spec="GenSpec", ms=2, mi=1, st=1, ko="MCKindOrderDynApi", do="MCDurOrderDyn", dyn="MCDynKindsApi"),
+                                         json_sink=sink8, workers=2, timeout=900)))
         jobs.append(("mc3", dict(cfg_text=cfg(ms=3, st=1, ko="MCKindOrder4"), workers=4, timeout=1500)))
         jobs.append(("mc_deviation_late", dict(cfg_text=cfg(ms=1, mi=1, late="MCLateKinds", leak="TRUE"), workers=2, timeout=300)))
         jobs.append(("mc_deviation_signal", dict(cfg_text=cfg(ms=1, sig=1, kill="TRUE"), workers=2, timeout=300)))
@@ -251,6 +255,11 @@ def run(ctx):
         return
     if ctx.thorough:
         dyn_cover += stratified([d for d in dyns if d["removed"] or d["signals"]], 14, rnd)
+        api = [d for d in read(sink8) if d["removed"] and "https+tcp+sni" in d["removed"] and len(d["kinds"]) == 2]
+        if not api:
+            ctx.inconclusive("the generator produced no scenario that closes a https+tcp+sni listener at run time")
+            return
+        dyn_cover += stratified(api, 6, rnd)
     small_edge = [s for s in read(sink4) if s["items"]]
     chosen += edge_cover + stall_cover + late_cover + dyn_cover + stratified(small_edge, ctx.pick(1, 40), rnd)
     if not idle or not mute or not twins:
@@ -284,6 +293,8 @@ def run(ctx):
               distinct_nontrivial=s["distinct_nontrivial"], samples=s.get("samples") or [],
               rule="one scenario per Return transition TLC examined (<=2 listener kinds) plus seeded simulation behaviours over all six kinds, a stratified seeded slice of which is played (every kind x duration in flight at shutdown start first); non-trivial = distinct scenario with >=2 work items; evaluations = items + connection attempts + Shutdown calls")
     ctx.take_failures(r, "c18")
+    for rec in r.of_kind("setup")[:3]:
+        ctx.log("  could not be staged: %s" % str(rec.get("msg"))[:200])
     if s.get("twin_skipped"):
         ctx.log("127.0.0.2 cannot be bound on this machine: %d shared-port scenarios skipped" % s["twin_skipped"])
         ctx.assumptions.append("shared-port scenarios skipped: 127.0.0.2 not bindable (%d)" % s["twin_skipped"])
